@@ -1,9 +1,10 @@
 SPECIFICATION Spec
 CONSTANTS
-  Msgs = {"a", "b", "c"}
+  Msgs = {1, 2, 3}
   TL = 1
   ML = 0
   MaxRetries = 1
+  Late = FALSE
   Repaired = TRUE
   Prefetch = 2
   FinishMode = "local"
